@@ -316,6 +316,10 @@ func init() {
 		}
 		return int(asInt64(args[1]))
 	}
+	intrinsics[zz+"PermuteMaps"] = func(fr *frame, args []value) value {
+		fr.p.permuteMaps = args[0].(bool)
+		return nil
+	}
 	intrinsics[zz+"Known"] = func(fr *frame, args []value) value {
 		return KnownFindingIDs[argString(args[0])]
 	}
